@@ -158,12 +158,7 @@ type Recorder struct {
 
 func NewRecorder() *Recorder { return &Recorder{hdr: http.Header{}, DeclaredCL: -1} }
 
-func (r *Recorder) Header() http.Header {
-	if r.Finished {
-		r.PostCalls++
-	}
-	return r.hdr
-}
+func (r *Recorder) Header() http.Header { return r.hdr }
 
 func bodyAllowed(status int) bool {
 	switch {
